@@ -194,6 +194,10 @@ FAULTS = [
      "rt", {}),
     ("pipeline-second", ["def a = [1]", "a !> length() !> length()", "a"], 1,
      "rt", {}),
+    # a loop exit at the top level of a script with several statements
+    ("top-break", ["def a = 1", "def b = 2", "break", "a"], 2, "rt", {}),
+    ("top-continue", ["def a = 1", "if a == 1 then continue", "a"], 1, "rt",
+     {}),
     ("module", ["def a = 1", f"require {MODNAME}", f"{MODNAME}->boom(a)"],
      2, "rt", {"file": "mod:" + MODNAME, "line": 5,
                "stack": [("boom", 2)]}),
@@ -254,6 +258,7 @@ POSTOK = {"chain-add": 6, "chain-mul": 6, "nested-call": 6, "member": 4,
           "explicit-error": 0, "arity": 1, "index": 1, "not-boolean": 0,
           "deep": 5, "stray-break": 11, "stray-continue": 11,
           "pipeline": 2, "pipeline-undefined": 2, "pipeline-second": 6,
+          "top-break": 0, "top-continue": 5,
           "stray-paren": 3, "missing-then": 2, "bad-def": 1,
           "unexpected-end": 5, "missing-end": 3, "surplus-def": 6,
           "surplus-bracket": 6, "surplus-end": 3}
@@ -267,6 +272,7 @@ STARTTOK = {"chain-add": 3, "chain-mul": 3, "nested-call": 5, "member": 3,
             "native-type": 0, "explicit-error": 0, "arity": 0, "index": 0,
             "not-boolean": 1, "deep": 5, "pipeline": 0,
             "pipeline-undefined": 0, "pipeline-second": 0, "stray-break": 11,
+            "top-break": 0, "top-continue": 5,
             "stray-continue": 11, "stray-paren": 3,
             "missing-then": 0, "bad-def": 0, "unexpected-end": 5,
             "missing-end": 0, "surplus-def": 6, "surplus-bracket": 6,
